@@ -186,13 +186,89 @@ Definition run_cross (waits_all : bool) (runs : list gobs) : verdict :=
        | r0 :: rest => if forallb (gobs_eqb r0) rest then 0%N else 23%N
        end.
 
+(* ------------------------------------------------------------------------ *)
+(* Stream T: the wait built-in interrupted by a trapped signal
+   (yash-builtin/src/wait/core.rs wait_for_any_job_or_trap, wait.rs execute).
+   The script family: a trap on a signal, one asynchronous child that takes
+   long and exits with [st], a helper that sends the signal [k] times to the
+   shell before the child ends, then [k + 2] times `wait PID` (or `wait`), each
+   followed by a probe, and a final `wait` with a probe.
+   Specification: every signal interrupts one wait, whose exit status is
+   384 + the signal number (> 128), after the trap action has run once; the
+   child stays waitable: the next wait gives its true status, the one after it
+   127 (`wait PID`) or 0 (`wait`); nothing is left unreaped.
+   Records: (0, $?) from the trap action, (1, $?) from a probe. *)
+Definition trap_expected (by_pid : bool) (k : nat) (st signo : N) : list (N * Z) :=
+  flat_map (fun _ => [(0%N, 0%Z); (1%N, Z.of_N (384 + signo))]) (seq 0 k)
+  ++ [(1%N, if by_pid then Z.of_N st else 0%Z);
+      (1%N, if by_pid then 127%Z else 0%Z);
+      (1%N, 0%Z)].
+
+Definition rec_eqb2 (a b : N * Z) : bool := N.eqb (fst a) (fst b) && Z.eqb (snd a) (snd b).
+
+Definition run_trap (by_pid : bool) (k : nat) (st signo : N)
+    (obs : list (N * Z)) (status : Z) (stuck panic : bool) (left : nat) : verdict :=
+  if stuck || panic then 20%N
+  else if negb (list_eqb rec_eqb2 obs (trap_expected by_pid k st signo)) then 24%N
+  else if negb (Z.eqb status 0) then 24%N
+  else if negb (left =? 0) then 22%N
+  else 0%N.
+
+(* ------------------------------------------------------------------------ *)
+(* Stream N: nested process trees (a child that forks and waits itself) checked
+   against a sequential reference.  The transition-system theorems are about
+   one forking shell; here every subshell runs the same protocol one level
+   down, and what the main shell observes must be what reading the script
+   sequentially gives. *)
+Inductive ncmd :=
+  | NWork (w : nat) (st : N)                       (* work w st *)
+  | NSub (body : list ncmd)                        (* ( body ) *)
+  | NPipe (members : list (list ncmd)) (pf : bool) (* { m1; } | { m2; } | ... *)
+  | NAsyncWait (body : list ncmd)                  (* { body; } & wait $! *)
+  | NSubst (body : list ncmd)                      (* v=$( body ) *)
+  | NExit (st : N).                                (* exit st (inside a body only) *)
+
+(* (exit status, whether the enclosing shell has been left by `exit`) *)
+Fixpoint neval (c : ncmd) : N * bool :=
+  let fix nlist (l : list ncmd) (cur : N) : N * bool :=
+    match l with
+    | [] => (cur, false)
+    | x :: r => let (s, ex) := neval x in if ex then (s, true) else nlist r s
+    end in
+  match c with
+  | NWork _ st => (st, false)
+  | NSub body | NAsyncWait body | NSubst body => (fst (nlist body 0%N), false)
+  | NPipe ms pf =>
+      let fix members (ms : list (list ncmd)) (fin : N) : N :=
+        match ms with
+        | [] => fin
+        | m :: r => members r (pipe_status fin (fst (nlist m 0%N)) pf)
+        end in
+      (members ms 0%N, false)
+  | NExit st => (st, true)
+  end.
+
+Definition nest_expected (cmds : list ncmd) : list Z := map (fun c => Z.of_N (fst (neval c))) cmds.
+
+Definition run_nest (cmds : list ncmd) (obs : list Z) (status : Z) (stuck panic : bool) (lf : nat)
+  : verdict :=
+  if stuck || panic then 20%N
+  else if negb (list_eqb Z.eqb obs (nest_expected cmds)) then 21%N
+  else if negb (lf =? 0) then 22%N
+  else 0%N.
+
 Inductive case :=
+  | CNest (cmds : list ncmd) (obs : list Z) (status : Z) (stuck panic : bool) (lf : nat)
+  | CTrap (by_pid : bool) (k : nat) (st signo : N) (obs : list (N * Z)) (status : Z)
+          (stuck panic : bool) (left : nat)
   | CKern (h : list (kop * kobs * ksnap))
   | CScript (p : list cmd) (o : sobs)
   | CCross (waits_all : bool) (runs : list gobs).
 
 Definition run_case (c : case) : verdict :=
   match c with
+  | CNest cmds obs status stuck panic lf => run_nest cmds obs status stuck panic lf
+  | CTrap b k st sg obs status stuck panic lf => run_trap b k st sg obs status stuck panic lf
   | CKern h => run_kern h
   | CScript p o => run_script p o
   | CCross w runs => run_cross w runs
